@@ -13,6 +13,24 @@ io::queue::queue(size_t len)
 {
 	if (len) mpt_queue_prepare(&_d, len);
 }
+// storage has a single owner: copy gets own block with the same content
+io::queue::queue(const queue &from) : interface(from)
+{
+	*this = from;
+}
+io::queue & io::queue::operator=(const queue &from)
+{
+	if (this == &from) {
+		return *this;
+	}
+	size_t len = from._d.len;
+	_d.len = 0;
+	_d.off = 0;
+	if (len && mpt_queue_prepare(&_d, len) && mpt_qpost(&_d, len) >= 0) {
+		mpt_queue_get(&from._d, 0, len, _d.base);
+	}
+	return *this;
+}
 io::queue::~queue()
 {
 	mpt_queue_resize(&_d, 0);
